@@ -302,7 +302,8 @@ func (ex *Exec) atCall(st *State, fr *Frame, instr ssa.Instruction, name string,
 		}
 		g := ex.evalClause(st, fr, c, extra)
 		ex.covers[fr.key+"/atcall/"+c.name()+"/"+c.Callee] = true
-		ex.oblige(st, "atcall", fmt.Sprintf("%s/%s", fr.key, c.name()), c.Labels, g, c, ex.posOf(instr))
+		ob := ex.oblige(st, "atcall", fmt.Sprintf("%s/%s", fr.key, c.name()), c.Labels, g, c, ex.posOf(instr))
+		ex.attachProbes(st, fr, ob)
 	}
 }
 
@@ -720,6 +721,7 @@ func (ex *Exec) doRecv(st *State, fr *Frame, instr ssa.Instruction, ch Val, comm
 		ctx := strings.TrimPrefix(ch.Origin, "ctxdone:")
 		ex.observeCtx(st)
 		st.assume(st.read("ctxdone", "Bool", ctx))
+		fr.lastRecvOk = "false"
 		if commaOk {
 			return Val{Typ: resT, Elems: []Val{v, ex.mkVal(types.Typ[types.Bool], "false")}}
 		}
@@ -746,6 +748,7 @@ func (ex *Exec) doRecv(st *State, fr *Frame, instr ssa.Instruction, ch Val, comm
 		st.assume(smtImp(smtAnd(ok, fmt.Sprintf("(= (ch_class %s) %d)", ch.T, cc.ID)), g))
 	}
 	st.bump("recv")
+	fr.lastRecvOk = ok
 	if commaOk {
 		return Val{Typ: resT, Elems: []Val{v, ex.mkVal(types.Typ[types.Bool], ok)}}
 	}
